@@ -74,7 +74,8 @@ const (
 
 var dirNames = []string{"client_to_server", "server_to_client"}
 
-var sizes = []int{0, 1, 5, 300, 70000}
+// 16379 = 16384 - 5: prefix plus payload fill a DATA frame of the default maximum size exactly
+var sizes = []int{0, 1, 5, 300, 16379, 70000}
 
 type msgSpec struct {
 	Size       int
@@ -1036,8 +1037,15 @@ func configs(maxMsgs int, bigOnlyAlone bool) []config {
 		if bigOnlyAlone && len(msgs) > 1 {
 			// quick tier: the 70 000-byte message appears in single-message sequences only
 			for _, m := range msgs {
-				if m.Size == 70000 {
+				if m.Size == 70000 || m.Size == 16379 {
 					return
+				}
+			}
+		}
+		if len(msgs) > 2 {
+			for _, m := range msgs {
+				if m.Size == 16379 {
+					return // thorough: the frame-filling message in sequences of at most two
 				}
 			}
 		}
@@ -1443,7 +1451,7 @@ func main() {
 	}
 	bigNote := ""
 	if tier != "thorough" {
-		bigNote = " (quick: the 70000-byte message only in single-message sequences)"
+		bigNote = " (quick: the 16379- and 70000-byte messages only in single-message sequences)"
 	}
 	rep.Coverage["violating_cases_per_signature"] = counts
 	rep.Coverage["traces_validated_against_impl"] = rep.Counter("evaluations")
